@@ -209,6 +209,16 @@ ta_uri = "{TA_URI}"
         self.krill.ca_manager().ca_routes_update(ca_handle(ca), upd, &self.actor, &self.krill)
     }
 
+    /// The same on behalf of a logged-in user (the audit record must name that user).
+    pub fn routes_update_as(&self, user: &str, ca: &str, added: &[&str], removed: &[&str]) -> KrillResult<()> {
+        let upd = api::roa::RoaConfigurationUpdates {
+            added: added.iter().map(|s| api::roa::RoaConfiguration::from_str(s).expect("roa")).collect(),
+            removed: removed.iter().map(|s| api::roa::RoaPayload::from_str(s).expect("roa")).collect(),
+        };
+        let actor = Actor::user(user.to_string());
+        self.krill.ca_manager().ca_routes_update(ca_handle(ca), upd, &actor, &self.krill)
+    }
+
     pub fn keyroll_init(&self, ca: &str) -> KrillResult<()> {
         self.krill.ca_manager().ca_keyroll_init(ca_handle(ca), chrono::Duration::seconds(0), &self.actor, &self.krill)
     }
